@@ -742,6 +742,13 @@ def getitem(eng, base, idx):
             # symbolic key: must be one of the keys on this path
             vals = [base[k] for k in keys]
             if not all(T.is_scalar(v) for v in vals):
+                # a table of non-scalars: decided only when the path condition entails which entry is meant
+                for k in keys:
+                    if T.is_sym(k) and z3.eq(z3.simplify(k), z3.simplify(idx)):
+                        return base[k]
+                hits = [k for k in keys if (T.is_sym(k) or isinstance(k, int)) and eng.proves(T.compare("eq", idx, k))]
+                if hits:
+                    return base[hits[0]]
                 raise Unsupported("symbolic key into dict of non-scalars")
             eng.oblige("dict-key-present", T.lor(*[T.compare("eq", idx, k) for k in keys]), kind="bounds")
             res = vals[-1]
